@@ -456,6 +456,28 @@ def t_forced(name, D, N, order, B, seed):
                      "vmap over states with a broadcast forcing vs per-member"))
 
 
+def t_forced_rollout(name, D, N, order, seed):
+    """rollout of a ForcedStepper with a CONSTANT forcing whose leading (channel) axis happens to have length n, and a batch of size n:
+    rollout / jit(rollout) / vmap(rollout) vs the step-by-step loop (a size coincidence must not turn the forcing into a time series)"""
+    jax, jnp, eqx, ex = _jx()
+    s = _mk(name, D, N, order)
+    fs = ex.ForcedStepper(s)
+    C = s.num_channels
+    n = max(C, 2)
+    u = _state(D, N, C, seed)
+    f = _state(D, N, C, seed + 11)
+    ref, cur = [], u
+    for _ in range(n):
+        cur = fs(cur, f); ref.append(np.asarray(cur))
+    ref = np.stack(ref)
+    ro = ex.rollout(fs, n, takes_aux=True, constant_aux=True)
+    U = jnp.stack([u] * n); Fb = jnp.stack([f] * n)
+    return _all(_cmp(ro(u, f), ref, f"rollout(ForcedStepper, n={n}) with a constant forcing of leading length {C} vs the loop"),
+                _cmp(eqx.filter_jit(ro)(u, f), ref, "filter_jit(rollout(ForcedStepper)) vs the loop"),
+                _cmp(jax.vmap(ro)(U, Fb)[n - 1], ref, f"vmap(rollout(ForcedStepper)) with batch size n={n}, last member vs the loop"),
+                _cmp(ex.repeat(fs, n, takes_aux=True, constant_aux=True)(u, f), ref[-1], "repeat(ForcedStepper) vs the loop"))
+
+
 def t_family_rollout(name, D, N, order, n, B, seed):
     """a batch of steppers over a parameter grid, each with its own state, rolled out in both nesting orders"""
     jax, jnp, eqx, ex = _jx()
@@ -479,7 +501,7 @@ def t_family_rollout(name, D, N, order, n, B, seed):
                      "jit(rollout(batched family)) vs eager loops"))
 
 
-TESTS = dict(fresh_process=t_fresh_process, difficulty_big_int=t_difficulty_big_int, dealias_boundary=t_dealias_boundary, trace_call=t_trace_call, jit_step=t_jit_step, vmap_states=t_vmap_states, ctor_traced=t_ctor_traced, ctor_single=t_ctor_single,
+TESTS = dict(forced_rollout=t_forced_rollout, fresh_process=t_fresh_process, difficulty_big_int=t_difficulty_big_int, dealias_boundary=t_dealias_boundary, trace_call=t_trace_call, jit_step=t_jit_step, vmap_states=t_vmap_states, ctor_traced=t_ctor_traced, ctor_single=t_ctor_single,
              ctor_vector=t_ctor_vector, rollout_nesting=t_rollout_nesting, repeat_nesting=t_repeat_nesting, forced=t_forced,
              family_rollout=t_family_rollout)
 
@@ -614,6 +636,8 @@ def _witness(ctx):
     sel = _selection(ctx, deep)
     for p in FIXED_SINGLE + (FIXED_SINGLE_DEEP if deep else []):
         ctx.check("ctor_single", dict(p, seed=ctx.seed))
+    for nm, D in (("Burgers", 2), ("GrayScott", 1)) + ((("Burgers", 3), ("Diffusion", 1)) if deep else ()):
+        ctx.check("forced_rollout", dict(name=nm, D=D, N=SIZES[D], order=2 if nm != "Diffusion" else None, seed=ctx.seed))
     ctx.check("fresh_process", dict(mode="jit_first"))
     ctx.check("fresh_process", dict(mode="f32"))
     ctx.check("difficulty_big_int", dict(N=256, ncoef=9, D=1))
